@@ -285,6 +285,12 @@ func mRender(v mv) string {
 		return fmt.Sprintf("&%p", t)
 	case *mBuilder:
 		return "builder"
+	case *mCat:
+		var ps []string
+		for _, p := range t.parts {
+			ps = append(ps, mRender(p))
+		}
+		return "(" + strings.Join(ps, " + ") + ")"
 	case *mClosure:
 		return "func " + t.fn.Name()
 	case *ssa.Function:
@@ -677,6 +683,8 @@ func catRender(v mv) string {
 		return sb.String()
 	case *mSym:
 		return "‹" + t.name + "›"
+	case mIface:
+		return catRender(t.v)
 	}
 	return "‹" + mRender(v) + "›"
 }
@@ -892,7 +900,9 @@ func (m *mach) opaqueResult(fn *ssa.Function, args []mv) mv {
 	case 0:
 		return mNil
 	case 1:
-		return &mSym{name: base, typ: res.At(0).Type()}
+		// constructors return objects
+		_, isPtr := res.At(0).Type().Underlying().(*types.Pointer)
+		return &mSym{name: base, typ: res.At(0).Type(), nonNil: isPtr && strings.HasPrefix(fn.Name(), "New")}
 	}
 	tp := make(mTuple, res.Len())
 	for i := range tp {
@@ -1323,7 +1333,14 @@ func (m *mach) eval(fr *mframe, v ssa.Value) mv {
 	case *ssa.ChangeInterface:
 		return m.get(fr, t.X)
 	case *ssa.ChangeType:
-		return m.get(fr, t.X)
+		x := m.get(fr, t.X)
+		if s, ok := x.(*mSym); ok && s.typ != nil && !types.Identical(s.typ, t.Type()) {
+			if _, isBasic := t.Type().Underlying().(*types.Basic); isBasic {
+				q := func(p *types.Package) string { return p.Name() }
+				return &mSym{name: "conv<" + types.TypeString(t.Type(), q) + ">(" + s.name + ")", nonNil: s.nonNil, typ: t.Type()}
+			}
+		}
+		return x
 	case *ssa.MultiConvert:
 		return m.get(fr, t.X)
 	case *ssa.Convert:
@@ -1573,7 +1590,11 @@ func (m *mach) sliceOp(fr *mframe, t *ssa.Slice) mv {
 func (m *mach) convert(t *ssa.Convert, x mv) mv {
 	dst, src := t.Type().Underlying(), t.X.Type().Underlying()
 	if s, ok := x.(*mSym); ok {
-		return &mSym{name: s.name, nonNil: s.nonNil, typ: t.Type()}
+		if s.typ != nil && types.Identical(s.typ, t.Type()) {
+			return &mSym{name: s.name, nonNil: s.nonNil, typ: t.Type()}
+		}
+		q := func(p *types.Package) string { return p.Name() }
+		return &mSym{name: "conv<" + types.TypeString(t.Type(), q) + ">(" + s.name + ")", nonNil: s.nonNil, typ: t.Type()}
 	}
 	switch d := dst.(type) {
 	case *types.Basic:
@@ -1773,4 +1794,44 @@ func (c *Ctx) lookupMethod(t types.Type, name string) *ssa.Function {
 		}
 	}
 	return nil
+}
+
+// ---- exploration of value-dependent branches ---------------------------------------------------------
+
+type mPath struct {
+	conds []string // rendered conditions with the direction taken: "cond=true"
+	ret   mv
+	out   mOutcome
+}
+
+// explore runs `run` once per combination of directions of the branches whose condition is symbolic
+// (at most maxPaths runs); run must rebuild its inputs.
+func (m *mach) explore(maxPaths int, run func() (mv, mOutcome)) []mPath {
+	var paths []mPath
+	work := [][]bool{nil}
+	saved := m.decide
+	defer func() { m.decide = saved }()
+	for len(work) > 0 && len(paths) < maxPaths {
+		forced := work[len(work)-1]
+		work = work[:len(work)-1]
+		var taken []bool
+		var conds []string
+		m.decide = func(mm *mach, cond mv, at ssa.Instruction) (bool, bool) {
+			d := false
+			if len(taken) < len(forced) {
+				d = forced[len(taken)]
+			} else {
+				// a free choice: the other direction is explored later
+				alt := append(append([]bool{}, taken...), true)
+				work = append(work, alt)
+			}
+			taken = append(taken, d)
+			conds = append(conds, fmt.Sprintf("%s=%v", mRender(cond), d))
+			return d, true
+		}
+		m.steps = 0
+		r, out := run()
+		paths = append(paths, mPath{conds: conds, ret: r, out: out})
+	}
+	return paths
 }
